@@ -919,8 +919,46 @@ func checkC20(P *Prog, r *Result) {
 			}
 			return one, n
 		}
+		var targs map[string]types.Type
 		if one, n := pick(l.fn.AnonFuncs); n == 1 {
 			cl = one
+		} else if n == 0 && l.tmplFn == nil {
+			// the predicate is built by a closure factory called in the constructor
+			// (`stringTestFunc[T](func(s string) bool {...})`): its closure, under the binding of the factory's
+			// parameters and type parameters at that call
+			nFac := 0
+			eachInstr(l.fn, func(_ *ssa.BasicBlock, _ int, in ssa.Instruction) {
+				c, ok := in.(*ssa.Call)
+				if !ok {
+					return
+				}
+				fac := callOf(c).static
+				if fac == nil || fac.Blocks == nil || !inModule(funcPkgPath(fac)) || !types.Identical(c.Type().Underlying(), boolSig) {
+					return
+				}
+				made := returnedClosure(fac)
+				if made == nil {
+					return
+				}
+				nFac++
+				cl = made
+				env = map[ssa.Value]ssa.Value{}
+				for k, prm := range fac.Params {
+					if k < len(c.Call.Args) {
+						env[prm] = c.Call.Args[k]
+					}
+				}
+				targs = map[string]types.Type{}
+				if inst := c.Call.StaticCallee(); inst != nil {
+					tps, tas := fac.TypeParams(), inst.TypeArgs()
+					for i := 0; tps != nil && i < tps.Len() && i < len(tas); i++ {
+						targs[tps.At(i).Obj().Name()] = tas[i]
+					}
+				}
+			})
+			if nFac != 1 {
+				cl, env, targs = nil, nil, nil
+			}
 		} else if n == 0 && l.tmplFn != nil {
 			// the literal and its predicate live in a constructor helper: pair them there, under the
 			// binding of the helper's parameters to this constructor's arguments
@@ -943,7 +981,7 @@ func checkC20(P *Prog, r *Result) {
 			r.undecided("C20/predicate", c, l.pos, fmt.Sprintf("no documented predicate frozen for issue code %q on subject class %q", l.code, class))
 			continue
 		}
-		got, probs := P.canonicalPredicateEnv(cl, env)
+		got, probs := P.canonicalPredicateEnvT(cl, env, targs)
 		if len(probs) > 0 {
 			r.undecided("C20/predicate", c, P.pos(cl.Pos()), "predicate closure has an unrecognised shape: "+strings.Join(probs, "; "), "formula so far: "+got)
 			continue
@@ -957,7 +995,9 @@ func checkC20(P *Prog, r *Result) {
 	r.floor("C20/predicate", 26)
 	// regex globals: compiled once from a constant, never reassigned
 	for _, fn := range P.Funcs {
-		if !seenClosure[fn] {
+		// every function of the root package that reads a regular-expression global (the predicate closures,
+		// wherever a refactoring puts them)
+		if funcPkgPath(fn) != pkgZog {
 			continue
 		}
 		eachInstr(fn, func(_ *ssa.BasicBlock, _ int, in ssa.Instruction) {
@@ -1049,11 +1089,15 @@ func (P *Prog) canonicalPredicate(cl *ssa.Function) (string, []string) {
 // canonicalPredicateEnv: the predicate of a closure that lives in a constructor helper, with the
 // helper's parameters bound to the arguments of the constructor's call.
 func (P *Prog) canonicalPredicateEnv(cl *ssa.Function, env map[ssa.Value]ssa.Value) (string, []string) {
+	return P.canonicalPredicateEnvT(cl, env, nil)
+}
+
+func (P *Prog) canonicalPredicateEnvT(cl *ssa.Function, env map[ssa.Value]ssa.Value, targs map[string]types.Type) (string, []string) {
 	var sh predShape
-	if len(env) == 0 {
+	if len(env) == 0 && len(targs) == 0 {
 		sh = P.predicateShape(cl)
 	} else {
-		sh = P.predicateShape1(cl, env)
+		sh = P.predicateShape3(cl, env, nil, targs)
 	}
 	if len(sh.problems) > 0 {
 		return "", sh.problems
